@@ -1,3 +1,4 @@
+import ast
 import subprocess as sp
 import warnings
 
@@ -37,6 +38,29 @@ def file_mode_for_path(path):
     return mode
 
 
+def same_code(text, new_text):
+    """Checks that the output of the formatter is valid python code which has
+    still the same statements (nothing is checked if the input is no valid
+    python code)."""
+
+    def statements(code):
+        return [
+            type(node).__name__
+            for node in ast.walk(ast.parse(code))
+            if isinstance(node, ast.stmt)
+        ]
+
+    try:
+        old_statements = statements(text)
+    except (SyntaxError, ValueError):
+        return True
+
+    try:
+        return statements(new_text) == old_statements
+    except (SyntaxError, ValueError):
+        return False
+
+
 def format_code(text, filename):
     if _config.config.format_command is not None:
         format_command = _config.config.format_command.format(filename=filename)
@@ -52,7 +76,16 @@ def format_code(text, filename):
                 + result.stderr.decode("utf-8")
             )
             return text
-        return result.stdout.decode("utf-8")
+
+        new_text = result.stdout.decode("utf-8", errors="replace")
+        if not same_code(text, new_text):
+            raise_problem(
+                f"""\
+[b]The format_command '{escape(format_command)}' returned no valid python code or changed the statements of the code.[/b]
+The unformatted code is used."""
+            )
+            return text
+        return new_text
 
     try:
         from black import format_str
